@@ -15,6 +15,13 @@ import (
 func panicSite(in ssa.Instruction) (string, bool) {
 	switch x := in.(type) {
 	case *ssa.Panic:
+		// go/ssa closes the case dispatch of a blocking select with a synthetic
+		// panic("blocking select matched no case"): it is unreachable by construction
+		if mi, ok := x.X.(*ssa.MakeInterface); ok {
+			if k, ok := mi.X.(*ssa.Const); ok && k.Value != nil && strings.Contains(k.Value.ExactString(), "blocking select matched no case") {
+				return "", false
+			}
+		}
 		return "panic", true
 	case *ssa.Call:
 		fn := x.Call.StaticCallee()
